@@ -123,15 +123,30 @@ alphabet (the real matrix is int64; a narrower matrix would turn large codes int
 `bigalph` correspondence stream exercises codes around 2^15 and 2^16). -/
 def getCodes (seqs : List (List Nat)) (t : Trace) : Except Err (List (List (Option Nat))) := codesFrom t 0 seqs
 
-/-- `get_symbols(alignment)`: codes decoded through each sequence's alphabet (`decode_multiple` raises
-AlphabetError on a code outside the alphabet). -/
-def getSymbols (alph : List Char) (seqs : List (List Nat)) (t : Trace) : Except Err (List (List (Option Char))) := do
-  let codes ← getCodes seqs t
-  mapE (fun row => mapE (fun
-    | none => .ok none
-    | some c => match alph[c]? with
-      | some s => .ok (some s)
-      | none => .error .alphabetError) row) codes
+/-- decode one code (`alphabet.decode_multiple` raises AlphabetError on a code outside the alphabet) -/
+def decodeEntry (alph : List Char) : Option Nat → Except Err (Option Char)
+  | none => .ok none
+  | some c => match alph[c]? with
+    | some s => .ok (some s)
+    | none => .error .alphabetError
+
+def decodeRow (alph : List Char) (row : List (Option Nat)) : Except Err (List (Option Char)) := mapE (decodeEntry alph) row
+
+/-- every row is decoded with the alphabet of **its own** sequence (`alignment.sequences[i].get_alphabet()`) -/
+def decodeRows : List (List Char) → List (List (Option Nat)) → Except Err (List (List (Option Char)))
+  | _, [] => .ok []
+  | [], _ :: _ => .error .indexError
+  | a :: as, r :: rs => match decodeRow a r with
+    | .error e => .error e
+    | .ok x => match decodeRows as rs with
+      | .error e => .error e
+      | .ok xs => .ok (x :: xs)
+
+/-- `get_symbols(alignment)`: codes decoded through each sequence's alphabet (`alphs[k]` for row `k`). -/
+def getSymbols (alphs : List (List Char)) (seqs : List (List Nat)) (t : Trace) : Except Err (List (List (Option Char))) :=
+  match getCodes seqs t with
+  | .error e => .error e
+  | .ok codes => decodeRows alphs codes
 
 /-! ## helpers: terminal gaps, gap removal, identity, score -/
 
